@@ -196,9 +196,9 @@ def _store_rules(report, repo, rule, qual, store_pred, cache_pred, cache_rule,
   return f, g, stores, caches
 
 
-def r3_stored_value(report, repo, only_cache=False):
-  rule = 'C10-R3s' if only_cache else 'C06-R3'
-  cr = 'C10-R3'
+def r3_stored_value(report, repo, only_cache=False, cache_rule='C10-R3'):
+  rule = (cache_rule + 's') if only_cache else 'C06-R3'
+  cr = cache_rule
   if not only_cache:
     report.rule(rule, 'T-RDEF/T-MUST: MeasuredValue.set and '
                 'DimensionedMeasuredValue.__setitem__ store the transform '
@@ -710,3 +710,7 @@ def run(report, repo):
   report.guard(r6_conditional_validators, report, repo)
   report.guard(r7_measurements_pass, report, repo)
   report.guard(r8_order, report, repo)
+  from sa.rules import extra4, c02  # pylint: disable=g-import-not-at-top
+  report.guard(extra4.with_args_keeps_validators, report, repo, 'C06-R10')
+  report.guard(r3_stored_value, report, repo, only_cache=True, cache_rule='C06-R3c')
+  report.guard(c02.r7_diagnoses, report, repo, rule='C06-R11')
